@@ -63,7 +63,7 @@ func checkConv(id, typ, tier, replay string) int {
 	rep.Rule = fmt.Sprintf("%d seeded pairs for %s: %s. The script printed by the real drc is executed request by request / command by command on the device model; "+
 		"the resulting state must be equivalent to the target (canonical form: references replaced by content, generated names ignored), a second compare of the dumped model must be empty, "+
 		"and 'device unchanged' is only accepted for an already equivalent device. Non-trivial = the tool reported a change; distinct = distinct input text. "+
-		"Cases with a command rejected by the model are left to C08.", n, typ, convRules[typ])
+		"A command the model refuses under the five rules of C08 ends the run like a real approve would and counts as not converged.", n, typ, convRules[typ])
 	rep.Assumptions = []string{
 		"device semantics are those of the reference model written from the API/CLI documentation; every alarm is reproduced against the real code before it is classified",
 	}
@@ -97,8 +97,12 @@ func checkConv(id, typ, tier, replay string) int {
 		for _, a := range o.Anomalies {
 			rep.Anomaly(a)
 		}
-		if o.Exec != nil {
-			rep.Count("left_to_C08(command rejected)", 1)
+		if o.Exec != nil && o.Conv == nil {
+			// The device refuses a command: a real approve aborts there
+			// and the device is left short of the target.
+			rule := strings.TrimPrefix(o.Exec.Name, "rejected:")
+			rep.Count("command_rejected_"+rule, 1)
+			o.Conv = &clause{"not-converged:command-rejected:" + rule, o.Exec.What}
 		}
 		if o.Conv != nil {
 			key := typ + ":" + o.Conv.Name
